@@ -136,6 +136,11 @@ def stream_offsets(seed, uids):
 def make_optimiser(cfg):
     """optrun.make_optimiser plus the adaptive mutation agent (cfg['agent']: default | bandit)"""
     import optrun
+    # graphs of 13 and 16 nodes (depth 3): sizes beyond anything the other initial sets reach
+    leaves = lambda names: [[n_, []] for n_ in names]
+    optrun.INITIAL_GRAPHS.setdefault('big', [
+        ['a', [['b', leaves('abc')], ['c', leaves('bca')], ['a', leaves('cab')]]],
+        ['b', [['a', leaves('abca')], ['c', leaves('bcab')], ['b', leaves('cabc')]]]])
     if cfg.get('agent', 'default') == 'default':
         return optrun.make_optimiser(cfg, None, None)
     from golem.core.optimisers.adaptive.operator_agent import MutationAgentTypeEnum
@@ -537,6 +542,12 @@ def build_groups(ctx):
             cfg['crossover_prob'] = 1.0
             cfg['num_of_generations'] = max(cfg['num_of_generations'], 4)
             cfg['pop_size'] = max(cfg['pop_size'], 4)
+        if cfg['optimiser'] == 'surrogate':     # the surrogate model is consulted when the generation counter reaches 5
+            cfg['num_of_generations'] = 6 + i % 3
+        if i % 6 == 0:                          # graphs of more than 12 nodes
+            cfg['initial'] = 'big'
+            cfg['max_depth'] = 5
+            cfg['max_arity'] = 4
         if i % 6 == 1:
             cfg['seed'] = 0                     # the seed value 0 is a seed like any other
         if i % 6 == 5 and cfg['optimiser'] == 'evo':
@@ -555,6 +566,8 @@ def build_groups(ctx):
         rng = rng_of('parallel', i)
         cfg = make_config(rng, 100 + i, optimiser=par_kinds[i % 3])
         cfg['parallelization_mode'] = 'populational'
+        if cfg['optimiser'] == 'surrogate':
+            cfg['num_of_generations'] = 6
         cfg['crossover'] = [['subtree'], ['exchange_edges'], ['none']][i % 3]   # hash order is examined by the other family
         g = {'name': 'p%d' % i, 'family': 'parallel', 'cfg': cfg}
         g['runs'] = [('base', None, {'n_jobs': 1}), ('j2', 'CWorkers', {'n_jobs': 2}), ('j3', 'CWorkers', {'n_jobs': 3}),
